@@ -325,6 +325,19 @@ theorem peAddBackG_eq (d : Db) (l t u : Int) (f : Bool) : peAddBackG Guards.sour
   | none => rfl
   | some e => cases f <;> rfl
 
+theorem rmTrackInG_foldl (t : Int) (L : List Int) : ∀ pe : Table Ent,
+    L.foldl (rmTrackInG Guards.source t) (.ok pe) = .ok (L.foldl (rmTrackIn t) pe) := by
+  induction L with
+  | nil => intro pe; rfl
+  | cons l L ih =>
+    intro pe
+    simp only [List.foldl_cons]
+    have h1 : rmTrackInG Guards.source t (.ok pe) l = .ok (rmTrackIn t pe l) := by
+      unfold rmTrackInG rmTrackIn Guards.source C15Guards.v2_db_remove_track_found
+      simp only [Res.bind]
+      cases (pe.filter (fun r => r.key == l && r.val.track == t && r.val.uuid == 0)).getLast? <;> rfl
+    rw [h1]; exact ih _
+
 theorem setParentCheckG_none (d : Db) (c : Int) : setParentCheckG Guards.source d c none = .ok none := rfl
 
 theorem setParentCheckG_some (d : Db) (hf : forestOk d.pl = true) (c q : Int) :
@@ -404,9 +417,11 @@ theorem stepG_eq (d : Db) (hf : forestOk d.pl = true) (op : Op) : stepG d op = s
   | removeCrate c =>
     simp only [stepG, stepGW, step, descendantIdsG_eq d.pl hf c, plRemoveWith_eq]
   | createTrack => rfl
-  | removeTrack t => rfl
+  | removeTrack t => simp only [stepG, stepGW, step, rmTrackInG_foldl]
   | addTrack c t => simp only [stepG, stepGW, step, peAddBackG_eq]
-  | removeTrackFrom c t => rfl
+  | removeTrackFrom c t =>
+    simp only [stepG, stepGW, step, Guards.source, C15Guards.v2_crate_remove_track_found]
+    cases peFind d c t 0 <;> rfl
   | clearTracks c => rfl
   | peAddBack l t uu f => simp only [stepG, stepGW, step, peAddBackG_eq]
   | peRemove l e => rfl
